@@ -1,0 +1,120 @@
+//go:build verif
+
+package orefafs
+
+// Contracts for the deductive verifier in /verif (govc).  Comments only; compiled only with
+// the build tag "verif"; adds no code.  The file I/O contracts are the MemFile contracts
+// (vfs/memfs) transcribed to OrefaFS's node representation.
+
+//@ type OrefaFile
+//@   inv[C02] self.vfs != nil && self.at >= 0
+//@   guarded_by mu: nd at dirIndex dirEntries dirNames
+//@   immutable vfs name openMode
+
+//@ pred closedErr(e error) := e != nil && e is *fs.PathError && e.(*fs.PathError).Err == fs.ErrClosed
+//@ pred pathErr(e error, inner error) := e != nil && e is *fs.PathError && e.(*fs.PathError).Err == inner
+
+//@ func (*OrefaFile).Read
+//@   nilrecv
+//@   let ok := f != nil && f.name != "" && old(f.nd) != nil && old(f.nd.mode)&fs.ModeDir == 0 && old(f.openMode)&avfs.OpenRead != 0
+//@   ensures[C02,C07] f == nil ==> n == 0 && err == fs.ErrInvalid
+//@   ensures[C02,C07] f != nil && f.name != "" && old(f.nd) == nil ==> n == 0 && closedErr(err) && f.at == old(f.at)
+//@   ensures[C02] f != nil && f.name != "" && old(f.nd) != nil && old(f.nd.mode)&fs.ModeDir == 0 && old(f.openMode)&avfs.OpenRead == 0 ==> n == 0 && pathErr(err, f.vfs.err.BadFileDesc) && f.at == old(f.at)
+//@   ensures[C02] ok ==> n == min(len(b), max(0, len(old(f.nd.data)) - old(f.at)))
+//@   ensures[C02] ok ==> forall i int :: 0 <= i && i < n ==> b[i] == old(f.nd.data[f.at + i])
+//@   ensures[C02] ok ==> f.at == old(f.at) + n
+//@   ensures[C02] ok && len(b) > 0 ==> (n == 0 <==> err == io.EOF) && (n > 0 ==> err == nil)
+//@   ensures[C02] ok && len(b) == 0 ==> n == 0 && err == nil
+//@   ensures[C02] f != nil ==> f.nd == old(f.nd)
+//@   modifies f.at, b[*]
+
+//@ func (*OrefaFile).ReadAt
+//@   nilrecv
+//@   let ok := f != nil && f.name != "" && f.nd != nil && f.nd.mode&fs.ModeDir == 0 && off >= 0 && f.openMode&avfs.OpenRead != 0
+//@   ensures[C02,C07] f == nil ==> n == 0 && err == fs.ErrInvalid
+//@   ensures[C02,C07] f != nil && f.name != "" && f.nd == nil ==> n == 0 && closedErr(err)
+//@   ensures[C02] f != nil && f.name != "" && f.nd != nil && f.nd.mode&fs.ModeDir == 0 && off < 0 ==> n == 0 && err != nil
+//@   ensures[C02] f != nil && f.name != "" && f.nd != nil && f.nd.mode&fs.ModeDir == 0 && off >= 0 && f.openMode&avfs.OpenRead == 0 ==> n == 0 && pathErr(err, f.vfs.err.BadFileDesc)
+//@   ensures[C02] ok ==> n == min(len(b), max(0, len(f.nd.data) - off))
+//@   ensures[C02] ok ==> forall i int :: 0 <= i && i < n ==> b[i] == old(f.nd.data[off + i])
+//@   ensures[C02] ok ==> (n < len(b) <==> err == io.EOF) && (n == len(b) ==> err == nil)
+//@   modifies b[*]
+
+//@ func (*OrefaFile).Write
+//@   nilrecv
+//@   requires f != nil ==> f.at < 4611686018427387904
+//@   requires f != nil && f.nd != nil && f.nd.mode&fs.ModeDir == 0 ==> disjoint(b, f.nd.data)
+//@   let file := f != nil && f.name != "" && old(f.nd) != nil && old(f.nd.mode)&fs.ModeDir == 0
+//@   let ok := f != nil && f.name != "" && old(f.nd) != nil && old(f.nd.mode)&fs.ModeDir == 0 && old(f.openMode)&avfs.OpenWrite != 0
+//@   let pos := old(f.openMode)&avfs.OpenAppend != 0 ? len(old(f.nd.data)) : old(f.at)
+//@   ensures[C02,C07] f == nil ==> n == 0 && err == fs.ErrInvalid
+//@   ensures[C02,C07] f != nil && f.name != "" && old(f.nd) == nil ==> n == 0 && closedErr(err) && f.at == old(f.at)
+//@   ensures[C02] f != nil && f.name != "" && old(f.nd) != nil && old(f.nd.mode)&fs.ModeDir == 0 && old(f.openMode)&avfs.OpenWrite == 0 ==> n == 0 && err != nil && err is *fs.PathError && f.at == old(f.at) && len(f.nd.data) == len(old(f.nd.data))
+//@   ensures[C02] ok ==> n == len(b) && err == nil && f.at == pos + len(b)
+//@   ensures[C02] ok ==> len(f.nd.data) == max(len(old(f.nd.data)), pos + len(b))
+//@   ensures[C02] ok ==> forall i int :: 0 <= i && i < len(b) ==> f.nd.data[pos + i] == b[i]
+//@   ensures[C02] ok ==> forall i int :: 0 <= i && i < len(old(f.nd.data)) && (i < pos || i >= pos + len(b)) ==> f.nd.data[i] == old(f.nd.data[i])
+//@   ensures[C02] ok ==> forall i int :: len(old(f.nd.data)) <= i && i < pos ==> f.nd.data[i] == 0
+//@   ensures[C02] f != nil ==> f.nd == old(f.nd)
+
+//@ func (*OrefaFile).WriteAt
+//@   nilrecv
+//@   requires off < 4611686018427387904
+//@   requires f != nil && f.nd != nil && f.nd.mode&fs.ModeDir == 0 ==> disjoint(b, f.nd.data)
+//@   let ok := f != nil && f.name != "" && f.nd != nil && f.nd.mode&fs.ModeDir == 0 && off >= 0 && f.openMode&avfs.OpenWrite != 0
+//@   ensures[C02,C07] f == nil ==> n == 0 && err == fs.ErrInvalid
+//@   ensures[C02] f != nil && off < 0 ==> n == 0 && err != nil
+//@   ensures[C02,C07] f != nil && off >= 0 && f.name != "" && f.nd == nil ==> n == 0 && closedErr(err)
+//@   ensures[C02] f != nil && off >= 0 && f.name != "" && f.nd != nil && f.nd.mode&fs.ModeDir == 0 && f.openMode&avfs.OpenWrite == 0 ==> n == 0 && err != nil && err is *fs.PathError && len(f.nd.data) == len(old(f.nd.data))
+//@   ensures[C02] ok ==> n == len(b) && err == nil && f.at == old(f.at)
+//@   ensures[C02] ok ==> len(f.nd.data) == max(len(old(f.nd.data)), off + len(b))
+//@   ensures[C02] ok ==> forall i int :: 0 <= i && i < len(b) ==> f.nd.data[off + i] == b[i]
+//@   ensures[C02] ok ==> forall i int :: 0 <= i && i < len(old(f.nd.data)) && (i < off || i >= off + len(b)) ==> f.nd.data[i] == old(f.nd.data[i])
+//@   ensures[C02] ok ==> forall i int :: len(old(f.nd.data)) <= i && i < off ==> f.nd.data[i] == 0
+
+//@ func (*OrefaFile).Seek
+//@   nilrecv
+//@   let file := f != nil && f.name != "" && old(f.nd) != nil && old(f.nd.mode)&fs.ModeDir == 0
+//@   let size := len(f.nd.data)
+//@   let target := whence == 0 ? offset : (whence == 1 ? old(f.at) + offset : size + offset)
+//@   ensures[C02,C07] f == nil ==> ret == 0 && err == fs.ErrInvalid
+//@   ensures[C02,C07] f != nil && f.name != "" && old(f.nd) == nil ==> ret == 0 && closedErr(err) && f.at == old(f.at)
+//@   ensures[C02] file && 0 <= whence && whence <= 2 && target < 0 ==> ret == 0 && pathErr(err, f.vfs.err.InvalidArgument) && f.at == old(f.at)
+//@   ensures[C02] file && 0 <= whence && whence <= 2 && 0 <= target && target <= 9223372036854775807 ==> ret == target && err == nil && f.at == target
+//@   ensures[C02] f != nil ==> f.nd == old(f.nd) && f.at >= 0
+//@   modifies f.at
+
+//@ func (*OrefaFile).Truncate
+//@   nilrecv
+//@   requires size < 4611686018427387904
+//@   let ok := f != nil && f.name != "" && f.nd != nil && f.nd.mode&fs.ModeDir == 0 && size >= 0 && f.openMode&avfs.OpenWrite != 0
+//@   ensures[C02,C07] f == nil ==> r0 == fs.ErrInvalid
+//@   ensures[C02,C07] f != nil && f.name != "" && f.nd == nil ==> closedErr(r0)
+//@   ensures[C02] f != nil && f.name != "" && f.nd != nil && f.nd.mode&fs.ModeDir == 0 && size < 0 ==> r0 != nil && r0 is *fs.PathError && len(f.nd.data) == len(old(f.nd.data))
+//@   ensures[C02] f != nil && f.name != "" && f.nd != nil && f.nd.mode&fs.ModeDir == 0 && size >= 0 && f.openMode&avfs.OpenWrite == 0 ==> r0 != nil && len(f.nd.data) == len(old(f.nd.data))
+//@   ensures[C02] ok ==> r0 == nil && len(f.nd.data) == size && f.at == old(f.at)
+//@   ensures[C02] ok ==> forall i int :: 0 <= i && i < size && i < len(old(f.nd.data)) ==> f.nd.data[i] == old(f.nd.data[i])
+//@   ensures[C02] ok ==> forall i int :: len(old(f.nd.data)) <= i && i < size ==> f.nd.data[i] == 0
+
+//@ func (*OrefaFile).Close
+//@   nilrecv
+//@   ensures[C02,C07] f == nil ==> r0 == fs.ErrInvalid
+//@   ensures[C02] f != nil && old(f.nd) != nil ==> r0 == nil && f.nd == nil
+//@   ensures[C02] f != nil && old(f.nd) == nil && f.name != "" ==> closedErr(r0) && f.nd == nil
+//@   ensures[C02] f != nil ==> f.at == old(f.at)
+//@   modifies f.nd, f.dirEntries, f.dirNames
+
+//@ func (*OrefaFile).Sync
+//@   nilrecv
+//@   ensures[C02,C07] f == nil ==> r0 == fs.ErrInvalid
+//@   ensures[C02] f != nil && f.name != "" && f.nd == nil ==> closedErr(r0)
+//@   ensures[C02] f != nil && f.name != "" && f.nd != nil ==> r0 == nil
+//@   modifies nothing
+
+//@ func (*node).truncate
+//@   requires size >= 0 && size < 4611686018427387904
+//@   modifies nd.data, nd.data[*]
+//@   ensures[C02] len(nd.data) == size
+//@   ensures[C02] forall i int :: 0 <= i && i < size && i < len(old(nd.data)) ==> nd.data[i] == old(nd.data[i])
+//@   ensures[C02] forall i int :: len(old(nd.data)) <= i && i < size ==> nd.data[i] == 0
+
